@@ -1,0 +1,14 @@
+//go:build verif
+
+package hybridbuffer
+
+import "github.com/relex/slog-agent/base"
+
+// VerifC04UnloadOrDropChunk calls chunkManager.UnloadOrDropChunk of a bufferer created by this package: the call made
+// by Accept (spill), by a consumer's OnChunkLeftover and by the feeder's saveQueued / saveOutput, each from its own
+// goroutine. Only compiled with the "verif" build tag; the verification harness uses it to write chunks of one queue
+// directory from several goroutines at once.
+func VerifC04UnloadOrDropChunk(b base.ChunkBufferer, chunk *base.LogChunk) bool {
+	buf := b.(*bufferer)
+	return buf.chunkMan.UnloadOrDropChunk(chunk)
+}
